@@ -316,6 +316,19 @@ class CallMixin:
             return z3.Or([self.isinstance_f(st, v, c) for c in clsnode.elts])
         cname = clsnode.id if isinstance(clsnode, ast.Name) else clsnode.attr
         uni = self.uni
+        if isinstance(clsnode, ast.Name) and cname in st.env:
+            # isinstance against a class held in a variable (a parameter of kind Type): case split over the
+            # declared (closed, structurally checked) hierarchy
+            cv = self.as_int(st.env[cname])
+            cases = []
+            for b in sorted(set(uni.bases) | set(uni.obj_classes)):
+                try:
+                    cases.append(z3.And(cv == uni.class_id(b), self.isinstance_f(st, v, ast.Name(id=b))))
+                except OutOfSubset:
+                    continue
+            if not cases:
+                raise OutOfSubset("isinstance against class variable %s: no declared classes" % cname)
+            return z3.Or(cases)
         if cname == "int":
             return is_VInt(v.t)
         if cname == "str":
@@ -651,6 +664,7 @@ class CallMixin:
             env[gname] = SV(gv.t, kind_of_annotation(gk, uni) if gv.k == ANY else gv.k, gv.h)
         ordinal = self.next_ordinal("call[" + key + "]")
         label = "call[%s]#%d" % (key, ordinal)
+        uni.__dict__.setdefault("used_contracts", {}).setdefault(key, set()).add(self.key)
         pre_state = st.fork()
         pre_state.env = env
         scx = Ctx(spec=True, pre=pre_state, pre_env=env, entry_alloc=st.alloc)
@@ -664,7 +678,7 @@ class CallMixin:
             frozen = getattr(self, "entry", None) if con.get("frozen", True) else None
             assume_typed(st, t, ret, frozen)
             res = SV(t, ret, frozen)
-            for e in con.get("ensures", []):
+            for e in ([] if con.get("ensures_env") == "exit" else con.get("ensures", [])):
                 name, src = e if isinstance(e, tuple) else (None, e)
                 st.assume(self.formula(src, st, Ctx(spec=True, pre=pre_state, pre_env=env, result=res,
                                                     entry_alloc=st.alloc), env, pol=-1))
@@ -743,7 +757,11 @@ class CallMixin:
             # whatever the callee hands back holds only references that exist by now
             st.assume(ops.wf_val(res.t, st.alloc))
         pcx = Ctx(spec=True, pre=pre_state, pre_env=env, result=res, entry_alloc=entry_alloc)
-        for e in con.get("ensures", []):
+        # postconditions stated over the callee's ghost locals (ensures_env == "exit") cannot be used by a caller;
+        # `naming` clauses (the result of a deterministic function named by uninterpreted functions of its
+        # arguments) are assumed at call sites only and reported as such
+        ens = [] if con.get("ensures_env") == "exit" else list(con.get("ensures", []))
+        for e in ens + list(con.get("naming", [])):
             name, src = e if isinstance(e, tuple) else (None, e)
             st.assume(self.formula(src, st, pcx, env, pol=-1))
         if not cx.spec and con.get("ghost_call"):
